@@ -96,4 +96,12 @@ def activeSubs : List (String × String × List Decl) :=
 
 def parseArgs (items : List Item) : Except PErr Parsed := parse activeTop activeSubs items
 
+/-- antnode on the strings of `ServiceInstallCtx.args`: tokenise as clap does, then parse. -/
+def parseArgStrings (args : List String) : Except PErr Parsed := parseArgv activeTop activeSubs args
+
+/-- The option record of the same `add` with the listener port the started node reported as its
+`node_port` (what `on_start` makes of the registry entry, seen from `add_node`'s expressions). -/
+def pin (σ : Valuation) (listen : Option AStr) : Valuation :=
+  fun p => if p = ["node_port"] then (match listen with | some x => .opt (some x) | none => σ p) else σ p
+
 end SafeNet.Upgrade
